@@ -61,6 +61,12 @@ TScope ==
           /\ open' = open /\ base' = base
        \/ /\ Ev.op = "pop" /\ h > base /\ Ev.h = h - 1 /\ Ev.els = els - 1
           /\ open' = open /\ base' = base
+       \/ \* a deferred tag is evaluated in the environment saved at its place: the stack of
+          \* variable scopes is exchanged for one of the same nesting (it can differ only in
+          \* whether the global scope existed yet), and exchanged back afterwards
+          /\ Ev.op = "swap" /\ Ev.els = els /\ Ev.h - h \in {-1, 0, 1} /\ base + (Ev.h - h) \in {0, 1}
+          /\ open' = [i \in 1..Len(open) |-> [open[i] EXCEPT !.h = @ + (Ev.h - h)]]
+          /\ base' = base + (Ev.h - h)
        \/ \* first <var> at top level creates the global scope below everything
           /\ Ev.op = "ensure" /\ h = 0 /\ base = 0 /\ Ev.h = 1 /\ Ev.els = els
           /\ open' = [i \in 1..Len(open) |-> [open[i] EXCEPT !.h = @ + 1]]
